@@ -150,6 +150,7 @@ def tasks(tier):
     for cls in HAND_CLASSES:
         for m in CONTRACTS:
             out.append({'name': f'wrapper/{cls}.{m}', 'cls': cls, 'other': cls, 'method': m, 'timeout_ms': 20000})
+        out.append({'name': f'wrapper/{cls}.__init__/one-shot-iterable', 'cls': cls, 'other': cls, 'method': '__init__', 'lazy': True, 'timeout_ms': 20000})
     # comparing hands of different classes
     for m in ('__eq__', '__lt__', '__gt__', '__le__', '__ge__'):
         out.append({'name': f'wrapper/StandardHighHand-vs-StandardLowHand.{m}', 'cls': 'StandardHighHand', 'other': 'StandardLowHand',
@@ -207,23 +208,45 @@ def run(src, task, verify_contract, Shape):
             setup(vc, ctx0, bindings)
         use_setup = setup_hash
     elif task['method'] == '__init__':
+        made = {}
+
         def mk_cards(I, ctx, wf, shape):
             from pyvc.shapes import Builder
             import pokerkit.utilities as ut
             b = Builder(I, 'arg.', {'Card': ut.Card, 'Rank': ut.Rank, 'Suit': ut.Suit})
             cs = tuple(b.card(f'cards[{k}]') for k in range(2))
             wf.extend(b.wf)
-            return cs
+            made['cards'] = cs
+            # CardsLike: the cards may arrive as a one-shot iterable (Card.parse yields a generator); it can be read once
+            return ctx.alloc('iter', cs) if task.get('lazy') else cs
         makers = {'self': mk_hand(cls, ia, 'self'), 'cards': mk_cards}
+        other_entries = {}
 
         def has_entry_cut(I, ctx, fn, args, kwargs, node):
-            return has_entry
+            # the table is asked about SOME cards: the answer for the cards of the hand is the symbol `has_entry`; for anything else
+            # (e.g. an iterator that was already consumed: no cards at all) it is an unrelated symbol
+            from pyvc import models
+            seq = tuple(models.to_seq(I, ctx, args[-1]))
+            if len(seq) == len(made['cards']) and all(x is y for x, y in zip(seq, made['cards'])):
+                return has_entry
+            k = len(seq)
+            if k not in other_entries:
+                other_entries[k] = z3.Bool(f'lookup.has_entry(some other {k} cards)')
+            return other_entries[k]
         cuts['pokerkit.lookups.Lookup.has_entry'] = has_entry_cut
         cuts['pokerkit.lookups.BadugiLookup.has_entry'] = has_entry_cut
-        cuts['pokerkit.utilities.Card.clean'] = lambda I, ctx, fn, args, kwargs, node: args[-1]
-        use_setup = setup
+
+        def clean_cut(I, ctx, fn, args, kwargs, node):
+            from pyvc import models
+            return tuple(models.to_seq(I, ctx, args[-1]))
+        cuts['pokerkit.utilities.Card.clean'] = clean_cut
+
+        def setup_init(vc, ctx0, bindings):
+            setup(vc, ctx0, bindings)
+            bindings['cards'] = made['cards']
+        use_setup = setup_init
     else:
         use_setup = setup
     return verify_contract(src, K, Shape(n=2, S=1, T=1, B=1, H=1), with_state=False, arg_makers=makers, cuts=cuts,
-                           setup=use_setup, timeout_ms=task['timeout_ms'], tag=f'{task["cls"]}' + ('' if cls is other_cls else '-vs-' + task['other']),
+                           setup=use_setup, timeout_ms=task['timeout_ms'], tag=f'{task["cls"]}' + ('' if cls is other_cls else '-vs-' + task['other']) + ('-lazy' if task.get('lazy') else ''),
                            keep_smt=1 if task['cls'] == 'StandardLowHand' and task['method'] == '__lt__' else 0)
